@@ -12,6 +12,7 @@ import OpmVerif.Proofs.EclFmtFile
 import OpmVerif.Proofs.FmtReal
 import OpmVerif.Proofs.FmtRealFile
 import OpmVerif.Proofs.EclFmtSpec
+import OpmVerif.Proofs.Strtod
 
 namespace OpmVerif.Props.C07
 open OpmVerif.Ecl
@@ -197,6 +198,37 @@ theorem formatted_ix_token_value (p : Nat) (s : FmtReal.Sci) (h : FmtReal.SciOk 
     Strtod.parseDec (EclFmt.cstr (FmtReal.sciText s ++ extra)) =
       .num s.neg (EclFmt.decVal s.digits) (s.exp - p) (p + 1) :=
   FmtReal.ix_token_value p s h extra hp
+
+/-- **The `strtod` model rounds correctly**: for a positive decimal `num/den` the significand
+`q` and exponent offset `eo` that `Model/Strtod.lean` turns into the binary64 bit pattern are
+normalised (`q < 2^53`, and `q ≥ 2^52` unless `eo` is the subnormal exponent) and the number
+they denote, `q·2^(eo−1074)`, is within half a unit in the last place of `num/den` (stated
+without division on the common scale `num·2^1074` vs `den·2^eo`); an exact tie goes to the
+even significand.  So the bits the correspondence demands from the real reader are the
+correctly rounded ones — what is assumed of libc is that glibc's `strtod` rounds correctly. -/
+theorem strtod_model_rounds_correctly (num den : Nat) (hn : 0 < num) (hd : 0 < den) :
+    let q := (Strtod.roundCore num den).1
+    let eo := (Strtod.roundCore num den).2
+    q < 2 ^ 53 ∧ (eo = 0 ∨ 2 ^ 52 ≤ q) ∧
+      2 * (num * 2 ^ 1074 - q * (den * 2 ^ eo)) ≤ den * 2 ^ eo ∧
+      2 * (q * (den * 2 ^ eo) - num * 2 ^ 1074) ≤ den * 2 ^ eo :=
+  Strtod.roundCore_correct num den hn hd
+
+theorem strtod_model_ties_to_even (num den : Nat) (hd : 0 < den)
+    (htie : 2 * ((Strtod.scaled num den (Strtod.pickExp num den)).1 %
+        (Strtod.scaled num den (Strtod.pickExp num den)).2) =
+      (Strtod.scaled num den (Strtod.pickExp num den)).2) :
+    (Strtod.roundCore num den).1 % 2 = 0 :=
+  Strtod.roundCore_tie_even num den hd htie
+
+/-- the `double → float` step of the REAL reader rounds the significand to the nearest
+representable one, ties to even. -/
+theorem float_conversion_nearest (q e : Nat) :
+    2 * (q - Strtod.roundHalfEven q (2 ^ Strtod.f32Shift e) * 2 ^ Strtod.f32Shift e) ≤ 2 ^ Strtod.f32Shift e ∧
+      2 * (Strtod.roundHalfEven q (2 ^ Strtod.f32Shift e) * 2 ^ Strtod.f32Shift e - q) ≤ 2 ^ Strtod.f32Shift e :=
+  Strtod.float32_significand_nearest q e
+
+example : Strtod.roundCore 1 10 = (7205759403792794, 1018) := by decide +kernel   -- 0.1 = 0x3FB999999999999A
 
 /-- What follows an array inside a file meets the hypothesis `ht` of the two theorems above:
 the blank that starts the next header line, or the NUL padding at the end of the file. -/
